@@ -154,13 +154,22 @@ theorem CODE_LINES_VERBATIM (snd : Str) (ls : List Str) :
         intro e; exact hlen (by rw [e])
       simp [unprefixCode, hne, hneq]
 
-/-- a link without a matching reference definition is written `[text](dest)` / `[text](dest "title")`
-with `dest` unchanged -/
+/-- a link without a matching reference definition is written `[text](dest)` with `dest` unchanged — inside pointy brackets
+exactly when it holds blanks (the only way such a destination can be written; before the repair
+C04-destination-with-blanks it was written bare, which is no link at all) -/
 theorem DEST_VERBATIM (cfg : RCfg) (inH : Bool) (acc : Str) (cs : List Inline) (dest : Str)
     (h : findLabel cfg.defs dest none = none) :
     (renderInline cfg inH acc (.link cs dest none)).1 =
-      '[' :: (renderInlines cfg inH acc cs).1 ++ "](".toList ++ dest ++ [')'] := by
-  simp [renderInline, h]
+      '[' :: (renderInlines cfg inH acc cs).1 ++ "](".toList ++ writtenDest dest ++ [')'] ∧
+    (writtenDest dest = dest ∨ writtenDest dest = '<' :: dest ++ ['>']) ∧
+    ((dest.any fun c => c == ' ' || c == '\t' || c == '\n') = false → writtenDest dest = dest) := by
+  refine ⟨by simp [renderInline, h], ?_, ?_⟩
+  · unfold writtenDest; split
+    · right; rfl
+    · left; rfl
+  · intro hb; unfold writtenDest; simp [hb]
+
+example : writtenDest "http://x.y/a b".toList = "<http://x.y/a b>".toList ∧ writtenDest "http://x".toList = "http://x".toList := by decide
 
 /-- code span content is emitted unchanged between delimiters longer than any backtick run in it -/
 theorem SPAN_VERBATIM (t : Str) :
